@@ -38,6 +38,10 @@ SCENARIOS = {
     "three-same-var-arrays": [("t", "HH", [0, 3]), ("t", "HH", ("a", [0, 4])), ("t", "HH", ("a", [1, 3]))],
     "three-same-var-mixed": [("t", "HH", ("a", [4, 0])), ("t", "HH", 2), ("p", "HH", ("a", [1, 4]))],
     "two-arrays": [("t", "HH", ("a", [0, 2, 4])), ("t", "HH", ("a", [1, 3]))],
+    # selections that touch no line at all, next to a real load of the same variable / of a copy
+    "empty-and-load": [("t", "HH", [0, 4]), ("t", "HH", [3, 3])],
+    "empty-copy-and-load": [("t", "HH", [1, 5]), ("p", "HH", [5, 5])],
+    "empty-load-load": [("t", "HH", [2, 2]), ("t", "HH", [0, 3]), ("t", "HH", [2, 5])],
     "three-threads-copy": [("t", "HH", [0, 2]), ("p", "HH", [3, 5]), ("p", "HV", [0, 5])],
 }
 
